@@ -34,23 +34,12 @@ def make_symbolic(I, kind, name):
         if kind == 'bool':
             return SBool(fresh(name, z3.BoolSort()))
         if kind == 'bytes':
-            s = fresh(name, IntSeq)
-            i = z3.Int("%s_i" % name)
-            P.assume(z3.ForAll([i], z3.Implies(z3.And(i >= 0, i < z3.Length(s)),
-                                               z3.And(s[i] >= 0, s[i] <= 255))))
-            return SSeq('bytes', [('s', s)])
+            # element ranges (0..255) are asserted on elements as they are skolemised
+            return SSeq('bytes', [('s', fresh(name, IntSeq))])
         if kind == 'str':
-            s = fresh(name, IntSeq)
-            i = z3.Int("%s_i" % name)
-            P.assume(z3.ForAll([i], z3.Implies(z3.And(i >= 0, i < z3.Length(s)),
-                                               z3.And(s[i] >= 0, s[i] <= 0x10FFFF))))
-            return SSeq('str', [('s', s)])
+            return SSeq('str', [('s', fresh(name, IntSeq))])
         if kind == 'ascii':
-            s = fresh(name, IntSeq)
-            i = z3.Int("%s_i" % name)
-            P.assume(z3.ForAll([i], z3.Implies(z3.And(i >= 0, i < z3.Length(s)),
-                                               z3.And(s[i] >= 0, s[i] <= 127))))
-            return SSeq('str', [('s', s)])
+            return SSeq('str', [('s', fresh(name, IntSeq))], bound=(0, 127))
         if kind == 'none':
             return None
         if kind == 'opaque':
@@ -60,7 +49,11 @@ def make_symbolic(I, kind, name):
         raise OutOfFragment("unknown kind %r" % kind)
     tag = kind[0]
     if tag == 'const':
-        return kind[1]
+        v = kind[1]
+        if isinstance(v, str) and v[:2] in ('T:', 'E:'):
+            import kmip.core.enums as _en
+            return getattr(_en.Types, v[2:]) if v[0] == 'T' else getattr(_en, v[2:])
+        return v
     if tag == 'enum':
         cls = _resolve_class(kind[1])
         members = list(cls)
@@ -69,6 +62,20 @@ def make_symbolic(I, kind, name):
         t = fresh(name)
         if all(isinstance(m.value, int) and not isinstance(m.value, bool) for m in members):
             vals = sorted(set(m.value for m in members))
+            if vals[0] >= 0 and vals[-1] < 2 ** 32:
+                # represent the value by its base-256 digits so that be(n, value) is digit-exact
+                nd = 1
+                while 256 ** nd <= vals[-1]:
+                    nd += 1
+                ds = [fresh("%s_d%d" % (name, i)) for i in range(nd)]
+                for d in ds:
+                    P.assume(z3.And(d >= 0, d <= 255))
+                t = z3.IntVal(0)
+                for d in ds:
+                    t = t * 256 + d
+                t = z3.simplify(t)
+                from .builtins_model import remember_digits
+                remember_digits(I, SInt(t), ds)
             P.assume(member_constraint(vals, t))
             return SEnum(cls, t)
         P.assume(z3.And(t >= 0, t < len(members)))
@@ -92,7 +99,10 @@ def make_symbolic(I, kind, name):
     if tag == 'ctor':
         cls = _resolve_class(kind[1])
         kw = {a: make_symbolic(I, k, "%s.%s" % (name, a)) for a, k in kind[2].items()}
-        o = M.instantiate(I, cls, [], kw)
+        try:
+            o = M.instantiate(I, cls, [], kw)
+        except pyvc.Raised:
+            raise pyvc.Infeasible()     # the constructor rejects these arguments
         if isinstance(o, Obj):
             o.label = name
             o.meta['ctor_args'] = kw
@@ -164,6 +174,7 @@ def prove_contract(session, c, max_paths=4000, time_budget=None):
     """Generate and discharge every obligation of contract c against the body
     extracted from the current tree.  Results go into `session`."""
     qn = c.qualname
+    key = c.key
     try:
         ex = extract.by_qualname(qn)
     except extract.FunctionNotFound:
@@ -183,6 +194,8 @@ def prove_contract(session, c, max_paths=4000, time_budget=None):
 
     def task(path):
         I = pyvc.Interp(path, top=qn)
+        I.top_contract = c
+        I.prefer_variant = c.callee_variant
         path.current_fn = qn
         denv = pyvc.Env({}, ex.module.__dict__, ex.cls, qn, ex)
         args = {}
@@ -211,10 +224,22 @@ def prove_contract(session, c, max_paths=4000, time_budget=None):
                 path.inputs[name] = spec_locals[name]
             else:
                 spec_locals[name] = I.eval_spec(src, spec_locals, ex.module.__dict__, None, ex.cls)
+            I.ghost_globals[name] = spec_locals[name]
         for rname, src in c.requires_:
-            t = I.truth(I.eval_spec(src, spec_locals, ex.module.__dict__, None, ex.cls))
-            path.assume(t)
-        session.cover(qn + "/cover.pre")
+            node = parse_expr(src)
+            val = I.eval_spec(src, spec_locals, ex.module.__dict__, None, ex.cls)
+            path.assume(I.truth(val))
+            # `<input path> == E` about a still-unconstrained symbolic input: also bind the
+            # path to E, which keeps E's chunk structure (same meaning as the equation)
+            if isinstance(node, ast.Compare) and len(node.ops) == 1 and isinstance(node.ops[0], ast.Eq) \
+                    and isinstance(node.left, ast.Attribute):
+                e2 = pyvc.Env(dict(spec_locals), ex.module.__dict__, ex.cls, '<spec>', None)
+                e2.spec = True
+                o = I.resolve_opt(I.eval(node.left.value, e2))
+                cur = o.fields.get(node.left.attr) if isinstance(o, Obj) else None
+                if isinstance(cur, SSeq) and len(cur.chunks) == 1 and cur.chunks[0][0] == 's':
+                    o.fields[node.left.attr] = I.eval(node.comparators[0], e2)
+        session.cover(key + "/cover.pre")
         old = I.snapshot_old(all_srcs, spec_locals, ex.module.__dict__, ex.cls)
         when_vals = []
         for (exc, when, ens, rname) in c.raises_:
@@ -231,25 +256,25 @@ def prove_contract(session, c, max_paths=4000, time_budget=None):
         except pyvc.Raised as r:
             _check_raise(I, c, ex, r.exc, spec_locals, old, heap0, args, dict(when_vals))
             return
-        session.cover(qn + "/cover.return")
+        session.cover(key + "/cover.return")
         post_locals = dict(spec_locals)
         post_locals['result'] = result
         for (ename, src) in c.ensures_:
             v = I.eval_spec(src, post_locals, ex.module.__dict__, old, ex.cls)
-            path.prove("%s/post.%s" % (qn, ename), I.truth(v), kind="post")
+            path.prove("%s/post.%s" % (key, ename), I.truth(v), kind="post")
         for rname, w in when_vals:
             # a clause with `when` is exact: on a normal return its condition is false
             t = w if not isinstance(w, bool) else z3.BoolVal(w)
-            path.prove("%s/raises.%s.exact" % (qn, rname), z3.Not(t), kind="raises")
-        _check_frame(I, c, qn, heap0, args)
+            path.prove("%s/raises.%s.exact" % (key, rname), z3.Not(t), kind="raises")
+        _check_frame(I, c, key, heap0, args)
 
-    n = pyvc.explore(session, task, name=qn, max_paths=max_paths, time_budget=time_budget)
+    n = pyvc.explore(session, task, name=key, max_paths=max_paths, time_budget=time_budget)
     return n
 
 
 def _check_raise(I, c, ex, exc, spec_locals, old, heap0, args, when_vals):
     path = I.path
-    qn = c.qualname
+    qn = c.key
     matched = []
     for (ename, when, ens, rname) in c.raises_:
         cls = resolve_exc_class(ename, ex.module)
@@ -386,6 +411,8 @@ def apply_contract(I, c, ex, args, kwargs):
     caller = I.call_stack[-1] if I.call_stack else (I.top or '<top>')
     qn = c.qualname
     short = qn.split('.')[-2] + '.' + qn.split('.')[-1] if qn.count('.') >= 2 else qn
+    if c.variant:
+        short += '#' + c.variant
     env = pyvc.Env({}, ex.module.__dict__, ex.cls, qn, ex)
     I.bind_params(ex.node.args, args, kwargs, env, ex.name)
     loc = dict(env.locals)
@@ -394,7 +421,8 @@ def apply_contract(I, c, ex, args, kwargs):
         P.session.trusted.add("contract of %s assumed (%s)" % (qn, "; ".join(c.notes)))
     for name, src in c.lets:
         if src in ('int', 'nat', 'bytes', 'str', 'bool', 'ascii'):
-            loc[name] = make_symbolic(I, src, name)
+            # ghost parameter: the caller supplies the witness under the same name
+            loc[name] = I.ghost_globals[name] if name in I.ghost_globals else make_symbolic(I, src, name)
         else:
             loc[name] = I.eval_spec(src, loc, G, None, ex.cls)
     site = P.ghost.setdefault('callsites', {})
@@ -453,29 +481,42 @@ def apply_contract(I, c, ex, args, kwargs):
         result = make_symbolic(I, c.result_kind, "ret_" + ex.name)
     loc['result'] = result
     result_bound = False
+
+    def covered(ltxt):
+        if ltxt in c.modifies_:
+            return True
+        pre = ltxt.rsplit('.', 1)[0]
+        return (pre + '.*') in c.modifies_
+
+    def conjuncts(node):
+        if isinstance(node, ast.BoolOp) and isinstance(node.op, ast.And):
+            out = []
+            for v in node.values:
+                out.extend(conjuncts(v))
+            return out
+        return [node]
+
     for (ename, src) in c.ensures_:
-        node = parse_expr(src)
-        if isinstance(node, ast.Compare) and len(node.ops) == 1 and isinstance(node.ops[0], ast.Eq):
-            left = node.left
-            ltxt = ast.unparse(left)
-            if ltxt == 'result' and not result_bound:
-                e2 = pyvc.Env(dict(loc), G, ex.cls, '<spec>', None)
-                e2.spec, e2.old = True, old
-                result = I.eval(node.comparators[0], e2)
-                loc['result'] = result
-                result_bound = True
-                continue
-            if ltxt in c.modifies_ and ltxt not in bound and isinstance(left, ast.Attribute):
-                e2 = pyvc.Env(dict(loc), G, ex.cls, '<spec>', None)
-                e2.spec, e2.old = True, old
-                val = I.eval(node.comparators[0], e2)
-                o = I.resolve_opt(I.eval(left.value, e2))
-                if isinstance(o, Obj):
-                    o.fields[left.attr] = val
-                    bound.add(ltxt)
+        for node in conjuncts(parse_expr(src)):
+            e2 = pyvc.Env(dict(loc), G, ex.cls, '<spec>', None)
+            e2.spec, e2.old = True, old
+            if isinstance(node, ast.Compare) and len(node.ops) == 1 and isinstance(node.ops[0], ast.Eq):
+                left = node.left
+                ltxt = ast.unparse(left)
+                if ltxt == 'result' and not result_bound:
+                    result = I.eval(node.comparators[0], e2)
+                    loc['result'] = result
+                    result_bound = True
                     continue
-        t = I.truth(I.eval_spec(src, loc, G, old, ex.cls))
-        P.assume(t)
+                if isinstance(left, ast.Attribute) and covered(ltxt) and ltxt not in bound:
+                    val = I.eval(node.comparators[0], e2)
+                    o = I.resolve_opt(I.eval(left.value, e2))
+                    if isinstance(o, Obj):
+                        o.fields[left.attr] = val
+                        bound.add(ltxt)
+                        continue
+            t = I.truth(I.eval(node, e2))
+            P.assume(t)
     return loc['result']
 
 
